@@ -17,6 +17,18 @@ CHECKS = {
                 ref="DESIGN.md §5 C02"),
 }
 
+CHECKS.update({
+    "C03": dict(technique="history + stream-model monitor over OutputReader ops (fill/read/read_exact/take/set_position/seek/clone) at all forced SIMD levels",
+                text="Every read is compared with specmodel's S[p..p+n] and every position with the model position; failing seeks must error and leave the position unchanged; block counters on both sides of 2^32.",
+                ref="DESIGN.md §5 C03"),
+    "C09": dict(technique="reference-model monitor over random valid tree decompositions and large-offset subtree CVs; big-int oracle sweeps of the two length helpers",
+                text="Random recursive/grouped decompositions merged with the hazmat functions are compared with the model's whole-input output; subtree chaining values at chunk counters up to 2^54-1; helper functions against u128 definitions.",
+                ref="DESIGN.md §5 C09"),
+    "C10": dict(technique="history monitor with model-of-a-fresh-hasher oracle after reset(); clone slots with divergent continuations",
+                text="After every operation every instance is compared (count, finalize, XOF window, finalize_non_root) with the model of a newly constructed hasher fed the bytes since construction/reset, including histories with hazmat offsets.",
+                ref="DESIGN.md §5 C10"),
+})
+
 NOT_YET = {}
 
 def main():
